@@ -5,11 +5,13 @@ Import ListNotations.
 Local Open Scope nat_scope.
 
 (* ---------------------------------------------------------------- what closing a span can never touch *)
-(** everything except the slots, the CLOSE_COUNT cells and the panic flag *)
+(** everything except the slots, the CLOSE_COUNT cells, the panic flag, and — since a close under a slab guard parks the
+    parent reference as a phantom handle — the handle table and the guard bookkeeping *)
 Definition frame_eq (st st' : state) : Prop :=
   st_layers st' = st_layers st /\ st_global st' = st_global st /\ st_scoped st' = st_scoped st /\ st_def st' = st_def st /\
-  st_entries st' = st_entries st /\ st_handles st' = st_handles st /\ st_count st' = st_count st /\
-  st_created st' = st_created st /\ st_ene st' = st_ene st /\ st_cpar st' = st_cpar st.
+  st_entries st' = st_entries st /\ st_count st' = st_count st /\
+  st_created st' = st_created st /\ st_ene st' = st_ene st /\ st_cpar st' = st_cpar st /\
+  st_filtering st' = st_filtering st /\ st_vis st' = st_vis st.
 
 Lemma frame_eq_refl : forall st, frame_eq st st.
 Proof. intros; unfold frame_eq; repeat split. Qed.
@@ -22,6 +24,11 @@ Proof. intros; unfold frame_eq; repeat split. Qed.
 Lemma frame_eq_add_close : forall st t n, frame_eq st (add_close st t n).
 Proof. intros; unfold frame_eq; repeat split. Qed.
 Lemma frame_eq_panicked : forall st, frame_eq st (set_panicked st).
+Proof. intros; unfold frame_eq; repeat split. Qed.
+
+Lemma frame_eq_guards : forall st h l n, frame_eq st (set_guards h l n st).
+Proof. intros; unfold frame_eq; repeat split. Qed.
+Lemma frame_eq_handles : forall st h, frame_eq st (set_handles h st).
 Proof. intros; unfold frame_eq; repeat split. Qed.
 
 Lemma frame_eq_vacate : forall st i s sl, frame_eq st (vacate st i s sl).
@@ -37,11 +44,17 @@ Lemma frame_eq_clear_slot : forall casc st t nested i s,
 Proof.
   intros casc st t nested i s HC. unfold clear_slot.
   destruct (lookup st i s) as [sl|]; [|apply frame_eq_refl].
-  destruct (s_parent sl) as [p|]; [|apply frame_eq_vacate].
-  destruct (eff (vacate st i s sl) t nested) as [j|].
-  - specialize (HC (vacate st i s sl) j p). destruct (casc (vacate st i s sl) j p) as [st'' o]. simpl in *.
-    eapply frame_eq_trans; [apply frame_eq_vacate | exact HC].
-  - simpl. apply frame_eq_vacate.
+  pose proof (frame_eq_vacate st i s sl) as FV.
+  destruct (s_parent sl) as [p|].
+  - match goal with |- context [if ?B then _ else _] => destruct B end.
+    + simpl. eapply frame_eq_trans; [exact FV|]. eapply frame_eq_trans; [apply frame_eq_handles | apply frame_eq_guards].
+    + assert (FD : frame_eq st (drop_note (vacate st i s sl) i s)) by (eapply frame_eq_trans; [exact FV | apply frame_eq_guards]).
+      destruct (eff (drop_note (vacate st i s sl) i s) t nested) as [j|].
+      * specialize (HC (drop_note (vacate st i s sl) i s) j p).
+        destruct (casc (drop_note (vacate st i s sl) i s) j p) as [st'' o]. simpl in *.
+        eapply frame_eq_trans; [exact FD | exact HC].
+      * simpl. exact FD.
+  - destruct (guarded st i s); simpl; (eapply frame_eq_trans; [exact FV | apply frame_eq_guards]).
 Qed.
 
 Lemma frame_eq_frames : forall casc ls st t nested i s,
@@ -72,13 +85,109 @@ Proof.
   - eapply frame_eq_trans; [apply frame_eq_add_close|]. eapply frame_eq_trans; [apply frame_eq_put_close | apply frame_eq_panicked].
 Qed.
 
+(* ---------------------------------------------------------------- slab guards and the filtered layer: new operations *)
+Lemma Inv_handle_to_pend : forall st tr h i s, Inv None st tr -> hget h (st_handles st) = Some (HSpan i s) ->
+  Inv (Some (i, s)) (set_handles (hdel h (st_handles st)) st) tr.
+Proof.
+  intros st tr h i s I Hh.
+  eapply Inv_refs_only with (st := st); eauto.
+  - split; [|repeat split; auto]. intros; simpl; apply slots_same_refs_only.
+  - apply (i_close0 _ _ _ I).
+  - simpl. apply hdel_nodup. apply (i_hnodup _ _ _ I).
+  - simpl. intros h0 i0 s0 X. apply hdel_in in X. destruct X. eapply i_handles; eauto.
+  - apply (i_entries _ _ _ I).
+  - apply (i_dups _ _ _ I).
+  - apply (i_ene _ _ _ I).
+  - intros i' s' y Ly. simpl st_slots. change (nE _ i' s') with (nE st i' s').
+    pose proof (lookup_some _ _ _ _ Ly) as (Ey & _). rewrite <- Ey.
+    split; [|apply (i_pos _ _ _ I _ _ _ Ly)]. rewrite (i_refs _ _ _ I _ _ _ Ly). unfold nH at 1.
+    rewrite (filter_hdel_count (hmatch i' s') h (HSpan i s) (st_handles st) (i_hnodup _ _ _ I) (hget_in _ _ _ Hh)).
+    rewrite hmatch_pendn, pendn_none. unfold nH. simpl. f_equal. lia.
+Qed.
+
+Lemma inv_new_guards : forall st tr t h k a st' ob, Inv None st tr -> new_with_guards st t h k a = (st', ob) ->
+  forallb wf_obs ob = true -> Inv None st' (tr ++ ob).
+Proof.
+  intros st tr t h k a st' ob I H W. unfold new_with_guards in H.
+  assert (G : forall st0 ob0 stale, do_new st t h k a = (st0, ob0) -> forallb wf_obs (ob0 ++ stale) = true ->
+              (forall o, In o stale -> exists i q v, o = OStaleNote i q v) -> Inv None (note_vis st st0 t) (tr ++ ob0 ++ stale)).
+  { intros st0 ob0 stale D W0 HS. rewrite forallb_app in W0. apply andb_true_iff in W0. destruct W0 as (W0 & _).
+    rewrite app_assoc. apply Inv_inert.
+    - eapply Inv_ghost; [eapply inv_new; eauto|..]; unfold note_vis; destruct (st_count st <? st_count st0); reflexivity.
+    - intros o Io. destruct (HS o Io) as (i & q & v & ->). split; simpl; auto. }
+  destruct (eff st t false) as [i|].
+  - destruct (in_limbo st i (fst a)); [inversion H; subst; simpl in W; discriminate|].
+    destruct (do_new st t h k a) as [st0 ob0] eqn:D. inversion H; subst st' ob; clear H.
+    apply G; auto. intros o Io. destruct (note_at st i (fst a)); [|contradiction].
+    destruct (st_count st <? st_count st0); [|contradiction]. destruct Io as [<-|[]]. eauto.
+  - destruct (do_new st t h k a) as [st0 ob0] eqn:D. inversion H; subst st' ob; clear H.
+    specialize (G st0 ob0 [] eq_refl). rewrite !app_nil_r in G. apply G; auto. intros o [].
+Qed.
+
+Lemma inv_release : forall st tr t k st' ob, Inv None st tr -> do_release st t k = (st', ob) ->
+  forallb route_ok ob = true -> Inv None st' (tr ++ ob).
+Proof.
+  intros st tr t k st' ob I H RO. unfold do_release in H.
+  destruct (gget k (st_held st)) as [[[i s] q]|]; [|inversion H; subst; apply Inv_inert; auto; intros o [<-|[]]; split; simpl; auto].
+  match type of H with (if ?B then _ else _) = _ => destruct B end.
+  { inversion H; subst. rewrite app_nil_r. eapply Inv_ghost; eauto. }
+  match type of H with (match ?F with Some _ => _ | None => _ end) = _ => destruct F as [l|] end.
+  2:{ inversion H; subst. rewrite app_nil_r. eapply Inv_ghost; eauto. }
+  match type of H with context [hget (phantom q) (st_handles ?S)] => set (st2 := S) in * end.
+  assert (I2 : Inv None st2 tr) by (eapply Inv_ghost; eauto).
+  destruct (hget (phantom q) (st_handles st2)) as [[|i' p]|] eqn:Hh;
+    try (inversion H; subst; rewrite app_nil_r; exact I2).
+  set (st3 := set_handles (hdel (phantom q) (st_handles st2)) st2) in *.
+  pose proof (Inv_handle_to_pend st2 tr _ _ _ I2 Hh) as I3. fold st3 in I3.
+  pose proof (i_handles _ _ _ I2 _ _ _ (hget_in _ _ _ Hh)) as V. apply is_live_true in V. destruct V as (pl & Lp).
+  destruct (eff st3 t false) as [j|] eqn:Ef.
+  - destruct (close_stack (fuel_of st3) st3 t false j p) as [st4 o4] eqn:CS. inversion H; subst st' ob; clear H.
+    simpl in RO. apply andb_true_iff in RO. destruct RO as (Rj & RO). apply Nat.eqb_eq in Rj; subst j.
+    change (tr ++ ORoute i' (Some i') :: o4) with (tr ++ [ORoute i' (Some i')] ++ o4). rewrite app_assoc.
+    refine (close_stack_inv (fuel_of st3) st3 _ t false i' p pl _ Lp _ _ _ CS RO).
+    + apply Inv_inert; eauto. intros o [<-|[]]. split; simpl; auto.
+    + unfold fuel_of. simpl. pose proof (i_seqs _ _ _ I2 _ _ _ (i_created _ _ _ I2 _ _ _ Lp)). simpl in H. lia.
+  - inversion H; subst. simpl in RO. discriminate.
+Qed.
+
+Lemma inv_hold : forall st tr k h st' ob, Inv None st tr -> do_hold st k h = (st', ob) -> forallb wf_obs ob = true -> Inv None st' (tr ++ ob).
+Proof.
+  intros st tr k h st' ob I H W. unfold do_hold in H.
+  destruct (gget k (st_held st)); [inversion H; subst; simpl in W; discriminate|].
+  destruct (hget h (st_handles st)) as [[|i s]|]; try (inversion H; subst; try (simpl in W; discriminate); rewrite app_nil_r; exact I).
+  destruct (lookup st i s); inversion H; subst; (apply Inv_inert; [|intros o [<-|[]]; split; simpl; auto]); auto.
+  eapply Inv_ghost; eauto.
+Qed.
+
+Lemma inv_poke : forall st tr k st' ob, Inv None st tr -> do_poke st k = (st', ob) -> forallb wf_obs ob = true -> Inv None st' (tr ++ ob).
+Proof.
+  intros st tr k st' ob I H W. unfold do_poke in H.
+  destruct (gget k (st_held st)) as [[[i s] q]|]; inversion H; subst; [|simpl in W; discriminate].
+  rewrite app_nil_r. eapply Inv_ghost; eauto.
+Qed.
+
+Lemma inv_peek : forall st tr k st' ob, Inv None st tr -> do_peek st k = (st', ob) -> forallb wf_obs ob = true -> Inv None st' (tr ++ ob).
+Proof.
+  intros st tr k st' ob I H W. unfold do_peek in H.
+  destruct (gget k (st_held st)) as [[[i s] q]|]; inversion H; subst; [|simpl in W; discriminate].
+  apply Inv_inert; auto. intros o [<-|[]]; split; simpl; auto.
+Qed.
+
+Lemma inv_fevent : forall st tr t k st' ob, Inv None st tr -> do_fevent st t k = (st', ob) -> Inv None st' (tr ++ ob).
+Proof.
+  intros st tr t k st' ob I H. unfold do_fevent in H.
+  destruct (eff st t false); inversion H; subst; [|rewrite app_nil_r; auto].
+  apply Inv_inert; auto. intros o [<-|[]]. split; simpl; auto.
+Qed.
+
 (* ---------------------------------------------------------------- one step *)
 Lemma inv_step : forall st tr o st' ob, Inv None st tr -> step st o = (st', ob) ->
   forallb wf_obs ob = true -> forallb route_ok ob = true -> Inv None st' (tr ++ ob).
 Proof.
   intros st tr o st' ob I H W RO. unfold step in H. rewrite (i_nopanic _ _ _ I) in H.
+  destruct (existsb odd_hid (op_hids o)); [inversion H; subst; simpl in W; discriminate|].
   destruct o.
-  - eapply inv_new; eauto.
+  - eapply inv_new_guards; eauto.
   - eapply inv_clone; eauto.
   - eapply inv_drop; eauto.
   - eapply inv_enter; eauto.
@@ -89,6 +198,12 @@ Proof.
   - eapply inv_setdef; eauto.
   - eapply inv_unsetdef; eauto.
   - eapply inv_readtrace; eauto.
+  - eapply inv_hold; eauto.
+  - eapply inv_poke; eauto.
+  - eapply inv_peek; eauto.
+  - eapply inv_release; eauto.
+  - unfold do_enabled in H. inversion H; subst. rewrite app_nil_r. eapply Inv_ghost; eauto.
+  - eapply inv_fevent; eauto.
 Qed.
 
 (* ---------------------------------------------------------------- histories *)
@@ -190,10 +305,71 @@ Proof.
   simpl in *. eapply cfg_eq_trans; [|exact C]. split; reflexivity.
 Qed.
 
+(** the operations on slab guards and the filtered layer, for any relation between states that is closed under what they
+    touch (used for cfg_eq here, and for the stack / parent-table / single-collector frames elsewhere) *)
+Section NewOpsRel.
+  Variable R : state -> state -> Prop.
+  Hypothesis Rrefl : forall st, R st st.
+  Hypothesis Rtrans : forall a b c, R a b -> R b c -> R a c.
+  Hypothesis Rguards : forall st h l n, R st (set_guards h l n st).
+  Hypothesis Rfilter : forall st f v, R st (set_filter f v st).
+  Hypothesis Rpanic : forall st, R st (set_panicked st).
+  Hypothesis Rhdel : forall st h, R st (set_handles (hdel h (st_handles st)) st).
+  Hypothesis Rframe : forall a b, frame_eq a b -> R a b.
+
+  Lemma rel_hold : forall st k h, R st (fst (do_hold st k h)).
+  Proof.
+    intros. unfold do_hold. destruct (gget k (st_held st)); [apply Rrefl|].
+    destruct (hget h (st_handles st)) as [[|i s]|]; try apply Rrefl. destruct (lookup st i s); [apply Rguards | apply Rrefl].
+  Qed.
+  Lemma rel_poke : forall st k, R st (fst (do_poke st k)).
+  Proof. intros. unfold do_poke. destruct (gget k (st_held st)) as [[[i s] q]|]; [apply Rguards | apply Rrefl]. Qed.
+  Lemma rel_peek : forall st k, R st (fst (do_peek st k)).
+  Proof. intros. unfold do_peek. destruct (gget k (st_held st)) as [[[i s] q]|]; apply Rrefl. Qed.
+  Lemma rel_enabled : forall st t d, R st (fst (do_enabled st t d)).
+  Proof. intros. unfold do_enabled. apply Rfilter. Qed.
+  Lemma rel_fevent : forall st t k, R st (fst (do_fevent st t k)).
+  Proof. intros. unfold do_fevent. destruct (eff st t false); apply Rrefl. Qed.
+
+  Lemma rel_release : forall st t k, R st (fst (do_release st t k)).
+  Proof.
+    intros. unfold do_release. destruct (gget k (st_held st)) as [[[i s] q]|]; [|apply Rrefl].
+    match goal with |- context [if ?B then _ else _] => destruct B end; [apply Rguards|].
+    match goal with |- context [match ?F with Some _ => _ | None => _ end] => destruct F as [l|] end; [|apply Rguards].
+    match goal with |- context [hget (phantom q) (st_handles ?S)] => set (st2 := S) in * end.
+    assert (R2 : R st st2) by (unfold st2, drop_note; eapply Rtrans; [|apply Rguards]; eapply Rtrans; apply Rguards).
+    destruct (hget (phantom q) (st_handles st2)) as [[|i' p]|]; try exact R2.
+    set (st3 := set_handles (hdel (phantom q) (st_handles st2)) st2) in *.
+    assert (R3 : R st st3) by (eapply Rtrans; [exact R2 | apply Rhdel]).
+    destruct (eff st3 t false) as [j|]; [|exact R3].
+    pose proof (Rframe _ _ (frame_eq_close_stack (fuel_of st3) st3 t false j p)) as C.
+    destruct (close_stack (fuel_of st3) st3 t false j p) as [st4 o4]. simpl in *. eapply Rtrans; eauto.
+  Qed.
+
+  Lemma rel_new_guards : forall st t h k a, R st (fst (do_new st t h k a)) -> R st (fst (new_with_guards st t h k a)).
+  Proof.
+    intros st t h k a H. unfold new_with_guards.
+    assert (N : forall st', R st st' -> R st (note_vis st st' t)).
+    { intros st' H'. unfold note_vis. destruct (st_count st <? st_count st'); (eapply Rtrans; [exact H' | apply Rfilter]). }
+    destruct (eff st t false) as [i|].
+    - destruct (in_limbo st i (fst a)); [apply Rpanic|].
+      destruct (do_new st t h k a) as [st' ob]. simpl in *. apply N; auto.
+    - destruct (do_new st t h k a) as [st' ob]. simpl in *. apply N; auto.
+  Qed.
+End NewOpsRel.
+
 Lemma cfg_step : forall st o, cfg_eq st (fst (step st o)).
 Proof.
   intros st o. unfold step. destruct (st_panicked st); [apply cfg_eq_refl|].
-  destruct o; simpl.
+  destruct (existsb odd_hid (op_hids o)); [apply cfg_eq_refl|].
+  assert (RG : forall st h l n, cfg_eq st (set_guards h l n st)) by (split; reflexivity).
+  assert (RF : forall st f v, cfg_eq st (set_filter f v st)) by (split; reflexivity).
+  assert (RP : forall st, cfg_eq st (set_panicked st)) by (split; reflexivity).
+  assert (RH : forall st h, cfg_eq st (set_handles (hdel h (st_handles st)) st)) by (split; reflexivity).
+  destruct o; simpl;
+    [ apply (rel_new_guards cfg_eq cfg_eq_trans RF RP) | .. | apply (rel_hold cfg_eq cfg_eq_refl RG) | apply (rel_poke cfg_eq cfg_eq_refl RG)
+    | apply (rel_peek cfg_eq cfg_eq_refl) | apply (rel_release cfg_eq cfg_eq_refl cfg_eq_trans RG RH frame_cfg)
+    | apply (rel_enabled cfg_eq RF) | apply (rel_fevent cfg_eq cfg_eq_refl) ].
   - rewrite do_new_unfold. destruct (hget h (st_handles st)); [apply cfg_eq_refl|].
     destruct (eff st t false) as [i|]; [|split; reflexivity].
     assert (R : match resolve st i t k with inl (st1, _, _) => cfg_eq st st1 | inr _ => True end).
